@@ -209,9 +209,11 @@ def run_history(start, ops):
     m = model_start(start)
     if observe(v) != m:
         return (-1, "violation", [("assign/start", "Version(%r) has str, epoch, upstream, revision = %r" % (start, m), observe(v))], False)
-    rolled = False
+    rolled = False                      # has a rejected assignment been rolled back before the current step?
+    after_this = False
     idx, status, bad = -1, "start", []
     for idx, (attr, x) in enumerate(ops):
+        rolled = after_this
         exp = model_step(m, attr, x)
         before = observe(v)
         try:
@@ -243,9 +245,8 @@ def run_history(start, ops):
                 sig = "assign/%s/should-reject/%s/%s" % (attr, res, "state-changed" if after != before else "state-kept")
                 return (idx, "violation", [(sig, "%s raises ValueError (%s) and leaves %r" % (what, exp[1], before),
                                             "%s; %r" % ("no exception" if res == "ok" else "raises " + res, after))], rolled)
-            rolled = True
+            after_this = True
             status = "reject"
-            continue
     return (idx, status, bad, rolled)
 
 
